@@ -598,6 +598,7 @@ int yr_arena_load_stream(YR_STREAM* stream, YR_ARENA** arena)
     YR_ARENA_BUFFER* b = &new_arena->buffers[reloc_ref.buffer_id];
 
     if (reloc_ref.buffer_id >= new_arena->num_buffers ||
+        b->used < sizeof(void*) ||
         reloc_ref.offset > b->used - sizeof(void*) ||
         b->data == NULL)
     {
@@ -608,6 +609,16 @@ int yr_arena_load_stream(YR_STREAM* stream, YR_ARENA** arena)
     YR_ARENA_REF ref;
 
     memcpy(&ref, b->data + reloc_ref.offset, sizeof(ref));
+
+    // The reference stored in the file must designate a place within one of
+    // the buffers that were just loaded.
+    if (!YR_ARENA_IS_NULL_REF(ref) &&
+        (ref.buffer_id >= new_arena->num_buffers ||
+         ref.offset > new_arena->buffers[ref.buffer_id].used))
+    {
+      yr_arena_release(new_arena);
+      return ERROR_CORRUPT_FILE;
+    }
 
     void* reloc_ptr = yr_arena_ref_to_ptr(new_arena, &ref);
 
